@@ -1514,6 +1514,18 @@ func MultipartBodyDecoder(body io.Reader, header http.Header, schema *openapi3.S
 			}
 			return nil, fmt.Errorf("part %s: %w", name, err)
 		}
+		// A part sent as plain text (no Content-Type of its own, or text/plain) carries a primitive value in
+		// its textual form: it is read as the type the property declares. A text that is not of that type
+		// stays a string, and validating the body reports it.
+		if text, ok := value.(string); ok {
+			if ct := part.Header.Get(headerCT); ct == "" || parseMediaType(ct) == "text/plain" {
+				if typ := valueSchema.Value.Type; typ != nil && !typ.Includes("string") {
+					if v, err := parsePrimitive(text, valueSchema); err == nil && v != nil {
+						value = v
+					}
+				}
+			}
+		}
 		values[name] = append(values[name], value)
 	}
 
